@@ -5,6 +5,17 @@ CHECKS = {
  "C12": dict(cat="model_checking", tech="explicit-state BFS over real FileManager.Feed calls in lock-step with a reference model; state key = private tables",
    text="Every sequence of Feed calls within the bound (item alphabet of 24, lists<=2 x 2 calls quick; lists<=3 x 2 calls and lists<=2 x 3 calls thorough) is executed on the real FileManager; after each call BuildResponse is compared with a reference model written from the property text. Exhaustive within the bound, deduplicated on the manager's complete private state.",
    note="Trusted: the 60-line reference model; the overlay export file (reflection dump of private fields). Fresh-name spelling and named patches for never-submitted names are not judged.", ref="§3 C12"),
+
+ "C19": dict(cat="model_checking", tech="stateless schedule exploration (CHESS-style preemption-bounded DFS + unbounded state-pruned DFS) of the real OnFinished, mechanically rewritten onto a controlled scheduler; all failing-job subsets",
+   text="generator.go of the working tree is rewritten mechanically (channels, select, go, sync -> modelled package) and the real dispatcher/worker code is executed under a scheduler that owns every interleaving and select tie-break. For every scenario (jobs 0..4 quick / 0..5 thorough, concurrency 1..3/1..4, every assignment of ok/post-process-fails/write-fails per job, post-processor nil/present) all schedules with <=2 (thorough 3) preemptions and, with state-key pruning, all schedules without bound are executed and judged: no deadlock, no work after return, nil iff every job written once with its own content, executed failure => injected error returned.",
+   note="Scheduling points only at sync operations, goroutine start and environment calls; plain memory between them is atomic (data races are looked for by a separate free-running -race pass, which is sampling and does not decide). Trusted: the rewriter (go/ast) and the modelled semantics of channels/select/WaitGroup in overlays/verifvs.", ref="§2.4, §3 C19"),
+ "C20": dict(cat="model_checking", tech="exhaustive enumeration of option lists (all singles x forms, all ordered pairs, triples) on the real HandleOptions in lock-step with a reference table built from struct tags + README",
+   text="Every documented option name x {bare,=true,=false,=garbage,...}, every ordered pair of option atoms (garbage in either position) and every ordered triple over the prefix-related / mutually constrained names (thorough: over all atoms, 4.1M lists) is handled by the real CodeUtils.HandleOptions on a fresh CodeUtils and by a reference model; the complete observable configuration (all feature flags, template, naming style, initialisms, package prefix, import replacements) must match, invalid values/combinations must be rejected, README defaults must equal code defaults; Arguments.Targets() adaptation for nested structs.",
+   note="Reference semantics for the 6 value options and the documented implications are hand-written from the README. Combinations the code rejects without the README calling them invalid are not judged.", ref="§3 C20"),
+
+ "C03": dict(cat="exploration", tech="bounded-exhaustive input enumeration on the real parser: all byte strings / token sequences up to a length, all 1- and 2-deviation layouts of a document universe, compared with the model AST",
+   text="Totality: every string over a 16-byte alphabet up to length 5 (thorough 6), every sequence of <=3 (4) tokens from a 50-token alphabet, every prefix / token deletion / duplication of the document universe, 22 pumping families to 64 KiB. Faithfulness: ~400 documents covering every definition kind and optional part, each under the baseline layout and every single layout deviation (each token boundary x 9 fillers, each separator slot x {; none}, each quote, each integer spelling), thorough: all pairs of deviations on the 60 smallest documents; AST compared field by field with the AST prescribed by the property.",
+   note="Bytes >= 0x80 and control characters are outside the alphabets. The only timed oracle is 20 s for <= 64 KiB (observed < 0.1 s). Comments and throws requiredness are not compared.", ref="§3 C03"),
 }
 NA = {}
 def main():
